@@ -44,13 +44,18 @@ def shards(tier, seed):
     return [{"name": f"rand{i}", "kind": "random", "n": 450 if tier == "quick" else 2500} for i in range(n)]
 
 
+RX = "Visited.Extra.EXAMPLE"     # an additional realm, spelled with capitals in the configuration and in the requests
+R2M = "Other.Example"            # the second realm in a spelling with capitals (used consistently within a case)
+
+
 def make_config(rng):
     npeers = rng.randrange(1, 5)
     two_realms = rng.random() < 0.5
+    r2 = R2M if rng.random() < 0.3 else R2
     peers = []
     for i in range(npeers):
-        realm = R2 if (two_realms and i % 2 == 1) else R1
-        peers.append({"name": f"peer{i + 1}.{realm}", "realm": realm, "default": False, "timers": {}})
+        realm = r2 if (two_realms and i % 2 == 1) else R1
+        peers.append({"name": f"peer{i + 1}.{realm.lower()}", "realm": realm, "default": False, "timers": {}})
     napps = rng.randrange(1, 4)
     apps = []
     ids = rng.choice([[4, 16777251, 3], [4, 4, 3], [4, 4, 4], [16777251, 4, 16777251]])   # same id on several apps allowed
@@ -60,7 +65,7 @@ def make_config(rng):
             k = rng.randrange(1, npeers + 1)
             mine = sorted(rng.sample(range(npeers), k))
             apps.append({"tag": f"app{a}", "id": ids[a], "peers": [peers[j]["name"] for j in mine],
-                         "realms": [], "style": style, "acct": a == 2, "auth": a != 2})
+                         "realms": [RX] if rng.random() < 0.3 else [], "style": style, "acct": a == 2, "auth": a != 2})
         else:
             apps.append({"tag": f"app{a}", "id": ids[a], "peers": [], "realms": [], "style": style,
                          "acct": a == 2, "auth": a != 2})
@@ -450,7 +455,10 @@ def run_shard(spec):
         callers = []
         for _ in range(ncall):
             a = rng.choice(cfg["apps"])
-            realm = rng.choice([R1, R1, R2])
+            r2 = next((p["realm"] for p in cfg["peers"] if p["realm"] != R1), R2)
+            # mostly a realm of the configuration, spelled as configured; sometimes one nobody serves: an unknown
+            # name, or the empty string (an AVP that is present and empty is not an absent one)
+            realm = rng.choice([R1, R1, R1, r2, r2, RX, RX, "nowhere.example", ""])
             callers.append((a["tag"], realm, rng.choice(PLANS)))
         run.one(cfg, callers, rng.getrandbits(32))
     return run.result()
